@@ -498,6 +498,9 @@ func (c *Ctx) callersHoldLock(f *ssa.Function, rel, mutex string) bool {
 		return false
 	}
 	for _, e := range n.In {
+		if !c.P.AllFuncs()[e.Caller.Func] {
+			continue // a helper that was expanded into all its callers (or a function outside the census)
+		}
 		caller := e.Caller.Func
 		if e.Site == nil || c.isTestFunc(caller) {
 			continue
